@@ -72,17 +72,13 @@ func c01R1(c *Ctx, m *runnerModel) {
 	s := st.Underlying().(*types.Struct)
 	info := m.pkg.TypesInfo
 	// dispatch: tagless switch in Next whose case conditions test fields of tree.Statement against nil
-	var dispatch *ast.SwitchStmt
+	// dispatch: the tagless switch, or the if / else-if chain, of Next whose arm conditions test fields of tree.Statement
+	var dispatch ast.Node
 	arms := map[*types.Var]int{}
-	walkNoLit(m.next.Body, func(n ast.Node) bool {
-		sw, ok := n.(*ast.SwitchStmt)
-		if !ok || sw.Tag != nil {
-			return true
-		}
+	consider := func(node ast.Node, as []arm) {
 		local := map[*types.Var]int{}
-		for _, cl := range sw.Body.List {
-			cc := cl.(*ast.CaseClause)
-			for _, x := range cc.List {
+		for _, a := range as {
+			for _, x := range a.conds {
 				if b, ok := unparen(x).(*ast.BinaryExpr); ok && b.Op == token.NEQ && isNilExpr(info, b.Y) {
 					if f := lastField(info, b.X); f != nil && pkgPathOfVar(f) == treePkg.PkgPath {
 						local[f]++
@@ -92,7 +88,19 @@ func c01R1(c *Ctx, m *runnerModel) {
 		}
 		if len(local) > len(arms) {
 			arms = local
-			dispatch = sw
+			dispatch = node
+		}
+	}
+	walkNoLit(m.next.Body, func(n ast.Node) bool {
+		switch q := n.(type) {
+		case *ast.SwitchStmt:
+			if q.Tag == nil {
+				consider(q, armsOfSwitch(q))
+			}
+		case *ast.IfStmt:
+			if pe, isElse := w.parent[q].(*ast.IfStmt); !isElse || pe.Else != ast.Stmt(q) {
+				consider(q, armsOfIfChain(q))
+			}
 		}
 		return true
 	})
@@ -803,15 +811,12 @@ func c01R5(c *Ctx, m *runnerModel) {
 					}
 				}
 			}
-		case *ast.CompositeLit:
-			if tv, ok := info.Types[n]; ok && tv.Type == types.Type(m.T) {
-				if v := litField(n, m.fNode.Name()); v != nil {
-					nodeSrc = x.str(v)
-				}
-			}
 		}
 		return true
 	})
+	if v := m.ctorInit(w).fields[m.fNode.Name()]; v != nil {
+		nodeSrc = x.str(v)
+	}
 	// expected: tree.FromReaders($readers...)#0.Nodes[0].Statements
 	var readers string
 	sig := f.Sig()
@@ -1712,4 +1717,42 @@ func exhaustionTest(w *World, m *runnerModel, x *expander, cond ast.Expr) bool {
 		return op == token.LSS || op == token.NEQ
 	}
 	return op == token.GEQ || op == token.EQL
+}
+
+// arm: one alternative of a tagless switch or of an if / else-if chain (conds empty: default / final else).
+type arm struct {
+	conds []ast.Expr
+	body  []ast.Stmt
+	pos   token.Pos
+}
+
+func armsOfSwitch(sw *ast.SwitchStmt) []arm {
+	var out []arm
+	for _, cl := range sw.Body.List {
+		cc := cl.(*ast.CaseClause)
+		out = append(out, arm{conds: cc.List, body: cc.Body, pos: cc.Pos()})
+	}
+	return out
+}
+
+// armsOfIfChain: the arms of `if c1 {…} else if c2 {…} else {…}` (head must be the first if of the chain). A chain
+// written as consecutive `if c {…; return}` statements is a different shape and is not unified here.
+func armsOfIfChain(head *ast.IfStmt) []arm {
+	var out []arm
+	for is := head; is != nil; {
+		if is.Init != nil && is != head {
+			// an else-if with its own initialiser still tests its condition in order
+		}
+		out = append(out, arm{conds: []ast.Expr{is.Cond}, body: is.Body.List, pos: is.Pos()})
+		switch e := is.Else.(type) {
+		case *ast.IfStmt:
+			is = e
+		case *ast.BlockStmt:
+			out = append(out, arm{body: e.List, pos: e.Pos()})
+			is = nil
+		default:
+			is = nil
+		}
+	}
+	return out
 }
